@@ -40,6 +40,19 @@ NAMED = [
     'let v3 = {a = 1} == {b = 2}; let v4 = {a = 1, b = 2} != {a = 1, c = 3}; let v5 = [1, 2] == ["a"]; let v6 = {n = {x = 1}} == {n = {y = 1}};',
     'let v = [1, "a"] == [1.5]; let w = {a = [1]} != {a = ["x"]}; let x = [] == [1]; let y = {} == {a = 1};',
 ]
+# a caller's binding named like a parameter of a function with several untyped parameters (the parameters' inferred shapes refer to
+# one another): checking the call must leave the caller's binding alone - every parameter position, binding before / after the
+# definition, called directly / through a field, two functions with the names swapped
+NAMED += [
+    'let b = "s"; let add = func (a, b) => a + b; let r = add(1, 2); let msg = b + "x";',
+    'let a = "s"; let add = func (a, b) => a + b; let r = add(1, 2); let msg = a + "x";',
+    'let add = func (a, b) => a + b; let b = "s"; let r = add(1, 2); let msg = b + "x";',
+    'let c = "s"; let f = func (a, b, c) => a + b + c; let r = f(1, 2, 3); let z = c + "x";',
+    'let b = "s"; let lt = func (a, b) => a < b; let r = lt(1, 2); let z = b + "x";',
+    'let b = 1; let cat = func (a, b) => a + b; let r = cat("x", "y"); let z = b + 1;',
+    'let b = "s"; let t = {f = func (a, b) => a + b}; let r = t.f(1, 2); let z = b + "x";',
+    'let y = "s"; let f = func (x, y) => x * y; let g = func (y, x) => y - x; let r = f(2, 3) + g(5, 1); let z = y + "x";',
+]
 # selectors through the elements of a list literal whose elements have different shapes (one a sub-shape of the other), followed by a
 # selection that only the wider element supports: every order, directly / under a field / under a nested list
 for _A, _B, _acc in [("{x = 1}", '{x = 1, y = "s"}', ".y"), ("{}", '{a = "v"}', ".a"), ("[1]", '[1, "s"]', ".1"),
